@@ -9,6 +9,16 @@ TRUST = ("Trusted base: CPython, Hypothesis, the reference models under lsfverif
          "'held' means held on the cases counted in the evidence file.")
 
 CHECKS = {
+    "C06": dict(
+        category="exploration",
+        technique="property-based testing of generated failure assignments x handlers x schedules on structured fan-outs, with the lifecycle / acknowledgement / history monitors after every step plus outcome-set, once-per-attempt and no-sibling-progress oracles from the broker log",
+        text=("Parallel (2..4 branches) and Map (2..4 items) machines whose branches are optional Wait + Task(s) get failure assignments none/one/several/all (task error reply, Task time-out, Fail state, runtime path error), "
+              "reply delays that keep siblings in flight, Retry/Catch variants on the fan-out and optionally an enclosing Parallel with a slow sibling; Hypothesis also draws the schedule. Every case is watched by the C02, C03 and "
+              "C09 monitors; in addition the outcome must be one of the reference outcomes over the admissible first-failing branches, the fan-out may be started once per attempt and the Catch target entered once, and after a "
+              "failing reply was handled no sibling of that attempt may issue a request."),
+        design_ref="DESIGN.md section 5 C06",
+        note="One listed finding (handled failures of a fan-out nested in another fan-out) is reported as its own class. " + TRUST,
+    ),
     "C07": dict(
         category="exploration",
         technique="property-based differential testing of generated Retry/Catch policies and outcome sequences against a reference policy model on a virtual clock (invocation counts, exact request instants, outcome)",
